@@ -314,3 +314,24 @@ pub fn c16_cip_first_items_empty() {
     cover!(true, "end reached");
     sym::forget((orig, copy, copy2));
 }
+
+// @h prop=C16 tier=quick kind=proof inst="ColumnsRegion<MirrorRegion<u8>> before any column exists (Default::default())" bounds="the fresh region only; no push on either side (any push after the round trip is beyond what the solver finishes: DESIGN 4, C16)" desc="a columns region with no column yet can be deserialised from its own output and reports the same heap pairs as the original"
+#[cfg_attr(kani, kani::proof, kani::unwind(8))]
+pub fn c16_columns_without_columns() {
+    type R = ColumnsRegion<MirrorRegion<u8>>;
+    let orig = R::default();
+    let t = to_tokens(&orig);
+    let copy: R = from_tokens(&t);
+    let (mut n0, mut u0, mut n1, mut u1) = (0usize, 0usize, 0usize, 0usize);
+    orig.heap_size(|u, _| {
+        n0 += 1;
+        u0 += u;
+    });
+    copy.heap_size(|u, _| {
+        n1 += 1;
+        u1 += u;
+    });
+    assert!(n0 == n1 && u0 == u1, "C16: a fresh columns region differs from its deserialised copy");
+    cover!(true, "end reached");
+    sym::forget((orig, copy));
+}
